@@ -573,7 +573,16 @@ def r_expr(p, e):
     x = p['exprs'][e - 1]
     k = x['kind']
     if k in ('T', 'D', 'I'):
-        return '%s(%s)' % (k + (x['name'] if k == 'I' else ''), ', '.join([str(x['k'])] + x['reads']))
+        # the same call is written in different argument forms (plain, starred, split): the values passed are the same,
+        # the converter has to build the argument tuple of converted_call differently
+        rd = list(x['reads'])
+        if rd and x['k'] % 7 == 3:
+            args = [str(x['k']), '*(%s,)' % ', '.join(rd)]
+        elif len(rd) == 2 and x['k'] % 7 == 5:
+            args = [str(x['k']), rd[0], '*[%s]' % rd[1]]
+        else:
+            args = [str(x['k'])] + rd
+        return '%s(%s)' % (k + (x['name'] if k == 'I' else ''), ', '.join(args))
     if k == 'name':
         return x['name']
     if k == 'attr':
@@ -708,6 +717,12 @@ def r_stmt(p, n, ind, out):
         callee = [g for g in p['fns'] if g['name'] == d['name']]
         if callee and callee[0].get('kwonly') and len(args) == len(callee[0]['params']):
             args[-1] = '%s=%s' % (callee[0]['params'][-1], args[-1])
+        elif callee and args and len(args) == len(callee[0]['params']) and n % 5 == 2:      # last argument by keyword
+            args[-1] = '%s=%s' % (callee[0]['params'][-1], args[-1])
+        elif callee and args and len(args) == len(callee[0]['params']) and n % 5 == 4:      # ... through a dict
+            args[-1] = '**{%r: %s}' % (callee[0]['params'][-1], args[-1])
+        elif args and n % 5 == 1:                                                           # all positional, starred
+            args = ['*(%s,)' % ', '.join(args)]
         c = '%s(%s)' % (d['name'], ', '.join(args))
         if d['form'] == 'assign':
             emit('%s = %s' % (d['tgt'][0], c))
